@@ -1,5 +1,114 @@
-import AwsVerif.Model.Ring
+import AwsVerif.Proofs.C15.Live
+/-!
+C15 — ring buffer never hands out overlapping memory, in every interleaving.
+
+All theorems are about `Model/Ring.lean`: `run (Sys.init N) as` ranges over every ring size `N`
+and every interleaving `as` of the acquirer's two atomic steps (`Act.loadTail`, `Act.complete`)
+with the releaser's step (`Act.release`), for both acquire forms and all request sizes.
+Buffers are `(offset, length)` pairs; `ring.out` is the list of buffers handed out and not yet
+released (oldest first).
+-/
 namespace AwsVerif.Props.C15
-open AwsVerif.Ring
-theorem placeholder : (init 4).out = [] := rfl
+open AwsVerif.Ring AwsVerif.Proofs.C15
+
+/-- [A] In every reachable state the outstanding buffers are pairwise disjoint, non-empty and
+inside the ring's storage `[0, N)`. -/
+theorem c15_no_overlap (N : Nat) (as : List Act) :
+    ((run (Sys.init N) as).ring.out.Pairwise
+        (fun a b : Nat × Nat => a.1 + a.2 ≤ b.1 ∨ b.1 + b.2 ≤ a.1)) ∧
+    ∀ b ∈ (run (Sys.init N) as).ring.out, 0 < b.2 ∧ b.1 + b.2 ≤ N := by
+  obtain ⟨h1, h2⟩ := (reach_inv N as).1.safe
+  rw [reach_N] at h2
+  exact ⟨h1, h2⟩
+
+/-- [A] The acquirer's completing step, taken in any reachable state with an acquire in flight:
+if it reports success with `(off, len)` then that is the request that was in flight, the buffer
+is exactly the one appended (as newest) to `out`, it is disjoint from every buffer outstanding
+at that moment, lies in the ring, and `len` is the requested size (`exact`), resp. at most the
+requested size and at least the minimum (`upTo`, given the API precondition `m ≤ k`). -/
+theorem c15_sizes (N : Nat) (as : List Act) (t : Nat) (q q' : Req) (off len : Nat)
+    (hp : (run (Sys.init N) as).pending = some (t, q))
+    (hl : (step (run (Sys.init N) as) .complete).last = some (q', .ok off len)) :
+    q' = q ∧
+    (step (run (Sys.init N) as) .complete).ring.out = (run (Sys.init N) as).ring.out ++ [(off, len)] ∧
+    (match q with
+      | .exact k => len = k
+      | .upTo m k => len ≤ k ∧ (m ≤ k → m ≤ len)) ∧
+    0 < len ∧ off + len ≤ N ∧
+    ∀ b ∈ (run (Sys.init N) as).ring.out, b.1 + b.2 ≤ off ∨ off + len ≤ b.1 := by
+  obtain ⟨h1, h2, h3, h4, h5, h6⟩ := complete_step_spec (reach_inv N as) hp hl
+  rw [reach_N] at h5
+  refine ⟨h1, h2, ?_, h4, h5, h6⟩
+  cases q <;> exact h3
+
+/-- [A] The last reported result in any reachable state (however many releases later): a success
+obeys the size rule and names a non-empty range inside the ring. -/
+theorem c15_sizes_last (N : Nat) (as : List Act) (q : Req) (off len : Nat)
+    (hl : (run (Sys.init N) as).last = some (q, .ok off len)) :
+    (match q with
+      | .exact k => len = k
+      | .upTo m k => len ≤ k ∧ (m ≤ k → m ≤ len)) ∧ 0 < len ∧ off + len ≤ N := by
+  obtain ⟨h1, h2, h3⟩ := reach_lastOK N as q off len hl
+  rw [reach_N] at h3
+  refine ⟨?_, h2, h3⟩
+  cases q <;> exact h1
+
+/-- [A] With nothing outstanding and no acquire in flight, every `acquire` of `1 ≤ q ≤ N` bytes
+succeeds with exactly `q` bytes (releases scheduled between its two steps change nothing). -/
+theorem c15_empty_succeeds (N : Nat) (as : List Act) (k q : Nat)
+    (hn : (run (Sys.init N) as).ring.out = []) (hp : (run (Sys.init N) as).pending = none)
+    (h1 : 1 ≤ q) (h2 : q ≤ N) :
+    (run (run (Sys.init N) as)
+        (Act.loadTail (.exact q) :: (List.replicate k Act.release ++ [Act.complete]))).last =
+      some (.exact q, .ok 0 q) :=
+  empty_exact (reach_inv N as) hn hp k h1 (by rw [reach_N]; exact h2)
+
+/-- [A] Same for `acquire_up_to` with `1 ≤ m ≤ q`, `m ≤ N`: it succeeds with `min q N` bytes. -/
+theorem c15_empty_succeeds_up_to (N : Nat) (as : List Act) (k m q : Nat)
+    (hn : (run (Sys.init N) as).ring.out = []) (hp : (run (Sys.init N) as).pending = none)
+    (h1 : 1 ≤ m) (h2 : m ≤ q) (h3 : m ≤ N) :
+    (run (run (Sys.init N) as)
+        (Act.loadTail (.upTo m q) :: (List.replicate k Act.release ++ [Act.complete]))).last =
+      some (.upTo m q, .ok 0 (min q N)) := by
+  have := empty_upTo (reach_inv N as) hn hp k h1 h2 (by rw [reach_N]; exact h3)
+  rw [reach_N] at this
+  exact this
+
+/-- [A] From any reachable state without an acquire in flight: once every outstanding buffer has
+been released, an acquire of the full capacity `N` succeeds. -/
+theorem c15_full_again (N : Nat) (as : List Act) (hN : 1 ≤ N)
+    (hp : (run (Sys.init N) as).pending = none) :
+    (run (run (Sys.init N) as)
+        (List.replicate (run (Sys.init N) as).ring.out.length Act.release ++
+          [Act.loadTail (.exact N), Act.complete])).last = some (.exact N, .ok 0 N) := by
+  rw [run_append, ← run_append (Sys.init N)]
+  have hr := run_releases (run (Sys.init N) as).ring.out.length (run (Sys.init N) as)
+  rw [← run_append] at hr
+  have hn : (run (Sys.init N) (as ++ List.replicate (run (Sys.init N) as).ring.out.length Act.release)).ring.out = [] := by
+    rw [hr.1]; simp
+  exact c15_empty_succeeds N _ 0 N hn (by rw [hr.2]; exact hp) hN (Nat.le_refl _)
+
+/-! ### Non-vacuity: the hypotheses are met by non-trivial reachable states -/
+
+/-- a wrapped state with two buffers outstanding and a stale tail snapshot in flight is reachable -/
+example :
+    let s := run (Sys.init 8) [.loadTail (.exact 5), .complete, .loadTail (.exact 2), .complete, .release,
+                               .loadTail (.exact 3), .complete, .loadTail (.upTo 1 4), .release]
+    s.ring.out = [(0, 3)] ∧ s.ring.head = 3 ∧ s.ring.tail = 7 ∧ s.pending = some (5, .upTo 1 4) := by decide
+
+/-- …and completing from it hands out a buffer next to, not over, the outstanding one -/
+example :
+    (run (Sys.init 8) [.loadTail (.exact 5), .complete, .loadTail (.exact 2), .complete, .release,
+                       .loadTail (.exact 3), .complete, .loadTail (.upTo 1 4), .release, .complete]).last
+      = some (.upTo 1 4, .ok 3 1) := by decide
+
+/-- hypotheses of `c15_empty_succeeds` / `c15_full_again` hold in a reachable state with head ≠ 0 -/
+example :
+    let s := run (Sys.init 8) [.loadTail (.exact 5), .complete, .release]
+    s.ring.out = [] ∧ s.pending = none ∧ s.ring.head = 5 := by decide
+
+/-- a refused acquire exists (the size theorems are not about a function that always succeeds) -/
+example : (run (Sys.init 4) [.loadTail (.exact 3), .complete, .loadTail (.exact 2), .complete]).last
+    = some (.exact 2, .oom) := by decide
+
 end AwsVerif.Props.C15
